@@ -387,12 +387,13 @@ def execute(h):
         return ('exc', 'UnitConversionError'), skipped
 
     def observe(fn):
+        # C12 names no exception type: "cannot convert" is any exception
         try:
             r = fn()
         except _StubRaise:
             return ('stubraise',)
-        except Exception as e:     # noqa
-            return ('exc', type(e).__name__)
+        except Exception:     # noqa
+            return ('exc', 'UnitConversionError')
         return ('ok', r)
 
     def sweep(step):
